@@ -14,7 +14,7 @@
 //
 // ndjson out, one line per case: descriptor, outcome class, existence of output / .tmp afterwards, page ids of the
 // output and of the reference (core.Dict ids, reference pages loaded first so ids agree across processes), the list of
-// OpenLTXFile calls [file, offset, bytes delivered by that stream] and whether the output path existed while plan
+// OpenLTXFile calls [file, offset, bytes delivered by that stream, stream ended by an injected fault] and whether the output path existed while plan
 // files were still being read.
 package main
 
@@ -168,6 +168,7 @@ type openRec struct {
 	file      int
 	off       int64
 	delivered int64
+	faulted   int64 // 1: this stream was ended by an injected fault
 }
 
 type obsClient struct {
@@ -267,6 +268,7 @@ func (r *faultReader) next() *fault {
 func (r *faultReader) consume() {
 	r.c.mu.Lock()
 	r.c.faults = r.c.faults[1:]
+	r.rec.faulted = 1
 	r.c.mu.Unlock()
 }
 
@@ -904,7 +906,7 @@ func runCase(c *tcase, rm *repMeta, work string, d *core.Dict, dmu *sync.Mutex, 
 	oc.mu.Lock()
 	o.OutDuring = oc.outDuring
 	for _, r := range oc.opens {
-		o.Opens = append(o.Opens, []int64{int64(r.file), r.off, r.delivered})
+		o.Opens = append(o.Opens, []int64{int64(r.file), r.off, r.delivered, r.faulted})
 	}
 	oc.mu.Unlock()
 	dmu.Lock()
@@ -1066,7 +1068,7 @@ func modeRun(metaPath, inPath, outPath string, par, bsize int) error {
 				cmd := exec.Command(self, "-mode", "child", "-meta", metaPath, "-in", bin, "-out", bout, "-j", fmt.Sprint(bt.j))
 				var stderr bytes.Buffer
 				cmd.Stderr = &stderr
-				cmd.Env = append(os.Environ(), "GOTRACEBACK=single", "GOMAXPROCS=4")
+				cmd.Env = append(os.Environ(), "GOTRACEBACK=single", "GOMAXPROCS=4", "GOGC=off")
 				runErr := cmd.Run()
 				started := map[int]bool{}
 				done := map[int]bool{}
